@@ -56,12 +56,13 @@ type gop struct {
 	digK     byte // '-' none, 'd' digest of Data(digName,digCid), 'b' bogus
 	digNm    []int
 	digCid   int
-	digLen   int  // 't': length of the truncated digest
-	seg      bool // data: delivered through a multi-buffer wire reader (hook VerifOnPacket)
-	nilcb    bool // express: nil callback
-	k        int  // junk: which malformed / unsupported arrival
-	lp       int  // data: 0 bare Data; 1 LpPacket; 2 LpPacket with PIT token; 3 with congestion mark; 4 with incoming face id
-	life     int  // ms, -1 = default lifetime
+	digLen   int    // 't': length of the truncated digest
+	act      string // attach: what the handler does, synchronously, every time it is invoked: a:<name>:<hid> attach, d:<name> detach, x:<name>:<life> express, r reply
+	seg      bool   // data: delivered through a multi-buffer wire reader (hook VerifOnPacket)
+	nilcb    bool   // express: nil callback
+	k        int    // junk: which malformed / unsupported arrival
+	lp       int    // data: 0 bare Data; 1 LpPacket; 2 LpPacket with PIT token; 3 with congestion mark; 4 with incoming face id
+	life     int    // ms, -1 = default lifetime
 	nest     *nestSpec
 	cid      int
 	reason   int
@@ -197,6 +198,9 @@ func (g gop) String() string {
 		}
 		return fmt.Sprintf("adv ms=%d", g.ms)
 	case "attach":
+		if g.act != "" {
+			return fmt.Sprintf("attach n=%s h=%d act=%s", nameTxt(g.name), g.hid, g.act)
+		}
 		return fmt.Sprintf("attach n=%s h=%d", nameTxt(g.name), g.hid)
 	case "detach":
 		return fmt.Sprintf("detach n=%s", nameTxt(g.name))
@@ -286,6 +290,8 @@ func parseGop(line string) (gop, bool) {
 			g.lp, _ = strconv.Atoi(v)
 		case "seg":
 			g.seg = v == "1"
+		case "act":
+			g.act = v
 		case "nilcb":
 			g.nilcb = v == "1"
 		case "k":
@@ -393,6 +399,7 @@ type world struct {
 	iidWire     map[int][]byte
 	iidTok      map[int]string
 	curHid      int
+	replySeq    int
 	nextNilCb   bool
 	curIntWire  []byte
 	curIid      int
@@ -495,7 +502,7 @@ func paramsComp() enc.Component {
 			panic("MakeInterest did not append a parameters digest")
 		}
 	})
-	return paramsCompVal
+	return paramsCompVal.Clone() // callers may scribble over what they get
 }
 
 func mkName(n []int) enc.Name {
@@ -651,7 +658,34 @@ func (w *world) express(name []int, cbp bool, digK byte, digNm []int, digCid int
 		w.mu.Unlock()
 	}
 	kind := "express"
-	if err := w.eng.Express(enci, cbArg); err != nil {
+	err = w.eng.Express(enci, cbArg)
+	// Everything the caller handed in is the caller's again once Express has returned (an application re-uses one
+	// InterestConfig for many Interests, recycles name and parameter buffers): scribble over all of it. What the engine
+	// needs later — CanBePrefix, the digest, the lifetime — it must have taken at Express time.
+	cfg.CanBePrefix = !cfg.CanBePrefix
+	cfg.MustBeFresh = !cfg.MustBeFresh
+	if cfg.Lifetime != nil {
+		*cfg.Lifetime = 7 * time.Hour
+	}
+	bogusNonce := uint64(0xdeadbeef)
+	cfg.Nonce = &bogusNonce
+	for i := range fn {
+		for j := range fn[i].Val {
+			fn[i].Val[j] ^= 0xa5
+		}
+		fn[i].Typ = enc.TypeKeywordNameComponent
+	}
+	for i := range enci.FinalName {
+		for j := range enci.FinalName[i].Val {
+			enci.FinalName[i].Val[j] |= 0x80
+		}
+	}
+	for _, b := range appParam {
+		for j := range b {
+			b[j] = 0
+		}
+	}
+	if err != nil {
 		w.mu.Lock()
 		w.outs = append(w.outs, "ret err")
 		delete(w.pidWire, pid) // nothing was transmitted for this Interest
@@ -664,7 +698,11 @@ func (w *world) express(name []int, cbp bool, digK byte, digNm []int, digCid int
 	return fmt.Sprintf("%s %s %s %s %s", kind, nm, b01(cbp), digTxt, lifeNs(life))
 }
 
-func (w *world) handler(hid int) ndn.InterestHandler {
+// handler builds the Interest handler with id hid. act (may be empty) is what the handler does synchronously, while the
+// engine is still inside onInterest: attach / detach handlers (its own prefix, longer or shorter ones), express an
+// Interest, reply. The trace records these as nested operations of the `interest` op; in the model they are the next events
+// (a registration change made by a handler takes effect for the next incoming Interest).
+func (w *world) handler(hid int, act string) ndn.InterestHandler {
 	return func(args ndn.InterestHandlerArgs) {
 		if args.Interest == nil { // probe
 			w.curHid = hid
@@ -676,7 +714,76 @@ func (w *world) handler(hid int) ndn.InterestHandler {
 		if w.curIntWire != nil && string(args.RawInterest.Join()) != string(w.curIntWire) {
 			w.outs = append(w.outs, "handler-raw-interest-is-not-the-bare-interest")
 		}
+		p := strings.Split(act, ":")
+		ret := func(err error) string {
+			if err != nil {
+				return "err"
+			}
+			return "ok"
+		}
+		addNested := func(l string) {
+			w.mu.Lock()
+			w.nested = append(w.nested, l)
+			w.mu.Unlock()
+		}
+		switch {
+		case len(p) == 3 && p[0] == "a":
+			nm := parseName(p[1])
+			h, _ := strconv.Atoi(p[2])
+			r := ret(w.eng.AttachHandler(mkName(nm), w.handler(h, "")))
+			w.outs = append(w.outs, "ret "+r)
+			addNested(fmt.Sprintf("nop attach %s %d ret=%s", w.keysOf(mkName(nm)), h, r))
+		case len(p) == 2 && p[0] == "d":
+			nm := parseName(p[1])
+			r := ret(w.eng.DetachHandler(mkName(nm)))
+			w.outs = append(w.outs, "ret "+r)
+			addNested(fmt.Sprintf("nop detach %s ret=%s", w.keysOf(mkName(nm)), r))
+		case len(p) == 3 && p[0] == "x":
+			nm := stripParams(parseName(p[1]))
+			life, _ := strconv.Atoi(p[2])
+			if len(nm) > 0 {
+				addNested("nop " + w.express(nm, false, '-', nil, 0, 0, life, nil))
+			}
+		case len(p) == 1 && p[0] == "r":
+			r := w.doReply(iid)
+			addNested(fmt.Sprintf("nop reply %d ret=%s", iid, r))
+		}
 	}
+}
+
+// doReply calls the Reply closure of incoming Interest iid with a fresh Data and returns ok / deadline / err / noreply.
+func (w *world) doReply(iid int) string {
+	rf, ok := w.replies[iid]
+	if !ok {
+		w.outs = append(w.outs, "ret noreply")
+		return "noreply"
+	}
+	// the reply Data: name does not matter to the engine; make it unique per reply call
+	w.replySeq++
+	content := []byte(fmt.Sprintf("reply-%d-%d", iid, w.replySeq))
+	d, err := spec.Spec{}.MakeData(mkName([]int{1}), &ndn.DataConfig{}, enc.Wire{content}, sec.NewSha256Signer())
+	if err != nil {
+		panic(err)
+	}
+	exp := d.Wire.Join()
+	if tk := w.iidTok[iid]; tk != "-" {
+		tok, _ := hexDecode(tk)
+		pkt := &spec.Packet{LpPacket: &spec.LpPacket{PitToken: tok, Fragment: d.Wire}}
+		e := spec.PacketEncoder{}
+		e.Init(pkt)
+		exp = e.Encode(pkt).Join()
+	}
+	w.iidWire[iid] = exp
+	r := "ok"
+	if err := rf(d.Wire); err != nil {
+		if err == ndn.ErrDeadlineExceed {
+			r = "deadline"
+		} else {
+			r = "err"
+		}
+	}
+	w.outs = append(w.outs, "ret "+r)
+	return r
 }
 
 // drain the dummy face: every packet the engine transmitted since the last call, identified against what we handed in.
@@ -965,7 +1072,7 @@ func runCase(t *testing.T, ops []gop, cfg string) []string {
 				advance(time.Duration(g.ms)*time.Millisecond + time.Duration(g.ns))
 			case "attach":
 				opTxt = fmt.Sprintf("attach %s %d", w.keysOf(mkName(g.name)), g.hid)
-				if err := w.eng.AttachHandler(mkName(g.name), w.handler(g.hid)); err != nil {
+				if err := w.eng.AttachHandler(mkName(g.name), w.handler(g.hid, g.act)); err != nil {
 					w.outs = append(w.outs, "ret err")
 				} else {
 					w.outs = append(w.outs, "ret ok")
@@ -1067,34 +1174,7 @@ func runCase(t *testing.T, ops []gop, cfg string) []string {
 				}
 			case "reply":
 				opTxt = fmt.Sprintf("reply %d", g.iid)
-				rf, ok := w.replies[g.iid]
-				if !ok {
-					w.outs = append(w.outs, "ret noreply")
-					break
-				}
-				// the reply Data: name does not matter to the engine; make it unique per reply call
-				d, err := spec.Spec{}.MakeData(mkName([]int{1}), &ndn.DataConfig{}, enc.Wire{[]byte(fmt.Sprintf("reply-%d-%d", g.iid, len(lines)))}, sec.NewSha256Signer())
-				if err != nil {
-					panic(err)
-				}
-				exp := d.Wire.Join()
-				if tk := w.iidTok[g.iid]; tk != "-" {
-					tok, _ := hexDecode(tk)
-					pkt := &spec.Packet{LpPacket: &spec.LpPacket{PitToken: tok, Fragment: d.Wire}}
-					e := spec.PacketEncoder{}
-					e.Init(pkt)
-					exp = e.Encode(pkt).Join()
-				}
-				w.iidWire[g.iid] = exp
-				if err := rf(d.Wire); err != nil {
-					if err == ndn.ErrDeadlineExceed {
-						w.outs = append(w.outs, "ret deadline")
-					} else {
-						w.outs = append(w.outs, "ret err")
-					}
-				} else {
-					w.outs = append(w.outs, "ret ok")
-				}
+				w.doReply(g.iid)
 			}
 			wait()
 			w.drain()
@@ -1434,7 +1514,9 @@ func (g *genr) genCase() []gop {
 		default:
 			switch g.r.Intn(5) {
 			case 0, 1:
-				ops = append(ops, gop{kind: "attach", name: g.name(alpha, depth), hid: g.r.Intn(50)})
+				o := gop{kind: "attach", name: g.name(alpha, depth), hid: g.r.Intn(50)}
+				o.act = g.handlerAct(o.name, alpha, related)
+				ops = append(ops, o)
 			case 2:
 				ops = append(ops, gop{kind: "detach", name: related()})
 			case 3:
@@ -1460,6 +1542,32 @@ func (g *genr) genCase() []gop {
 	return ops
 }
 
+// handlerAct: what a handler does synchronously when it is invoked (re-entrant use of the engine), or "" (nothing)
+func (g *genr) handlerAct(own []int, alpha int, other func() []int) string {
+	if g.r.Intn(3) > 0 {
+		return ""
+	}
+	longer := append(append([]int{}, own...), 1+g.r.Intn(alpha))
+	shorter := own
+	if len(own) > 1 {
+		shorter = own[:len(own)-1]
+	}
+	target := [][]int{own, longer, shorter, other()}[g.r.Intn(4)]
+	if len(target) == 0 {
+		target = own
+	}
+	switch g.r.Intn(5) {
+	case 0: // one-shot handler: detaches (mostly itself)
+		return "d:" + nameTxt(target)
+	case 1: // hands over to a session handler
+		return fmt.Sprintf("a:%s:%d", nameTxt(target), 200+g.r.Intn(50))
+	case 2:
+		return fmt.Sprintf("x:%s:%d", nameTxt(stripParams(target)), g.pick(lifetimes[:len(lifetimes)-1]))
+	default:
+		return "r"
+	}
+}
+
 // a burst of handler registration history with Interests and (late) replies
 func (g *genr) fibBurst(alpha, depth int, nInt *int) []gop {
 	var ops []gop
@@ -1470,7 +1578,9 @@ func (g *genr) fibBurst(alpha, depth int, nInt *int) []gop {
 		case x < 3:
 			nm := g.name(alpha, depth)
 			attached = append(attached, nm)
-			ops = append(ops, gop{kind: "attach", name: nm, hid: 100 + i})
+			o := gop{kind: "attach", name: nm, hid: 100 + i}
+			o.act = g.handlerAct(nm, alpha, func() []int { return g.name(alpha+1, depth+1) })
+			ops = append(ops, o)
 		case x < 5:
 			if len(attached) > 0 {
 				nm := attached[g.r.Intn(len(attached))]
